@@ -6,6 +6,7 @@ import (
 	"fmt"
 	"sort"
 	"strings"
+	"sync"
 	"time"
 
 	log "github.com/go-spring/log"
@@ -29,19 +30,35 @@ type recItem struct {
 	Event log.Event
 }
 
-var recStore = map[string][]recItem{}
+var (
+	recMu    sync.Mutex // async workers deliver from their own goroutine
+	recStore = map[string][]recItem{}
+)
 
-func (a *RecAppender) Start() error { recStarted[a.Name]++; return nil }
-func (a *RecAppender) Stop()        { recStopped[a.Name]++ }
+func (a *RecAppender) Start() error {
+	recMu.Lock()
+	recStarted[a.Name]++
+	recMu.Unlock()
+	return nil
+}
+func (a *RecAppender) Stop() {
+	recMu.Lock()
+	recStopped[a.Name]++
+	recMu.Unlock()
+}
 func (a *RecAppender) Append(e *log.Event) {
 	it := recItem{Kind: "E", Level: e.Level.Name(), Event: *e}
 	it.Event.Fields = append([]log.Field(nil), e.Fields...)
 	it.Event.CtxFields = append([]log.Field(nil), e.CtxFields...)
 	it.ID = eventID(e)
+	recMu.Lock()
 	recStore[a.Name] = append(recStore[a.Name], it)
+	recMu.Unlock()
 }
 func (a *RecAppender) Write(b []byte) {
+	recMu.Lock()
 	recStore[a.Name] = append(recStore[a.Name], recItem{Kind: "W", ID: string(b)})
+	recMu.Unlock()
 }
 
 var (
@@ -72,11 +89,13 @@ func init() {
 	log.RegisterPlugin[RecAppender]("Rec", log.PluginTypeAppender)
 }
 
-func keepAllHandles(string) bool { return true }
+func keepAllHandles(name string) bool { return name == "root" }
 
 // confReset returns the library to its initial state and clears the recorders.
 func confReset() {
 	log.VerifReset(keepBuiltinTags, keepAllHandles)
+	recMu.Lock()
+	defer recMu.Unlock()
 	for k := range recStore {
 		delete(recStore, k)
 	}
